@@ -23,8 +23,16 @@ def wm(x: bytes) -> bytes:
     return x[:h] + MARK + x[h:]
 
 
+def wrapped(x: bytes, w: int, nl: bytes) -> bytes:
+    t = base64.b64encode(x)
+    return nl.join(t[i:i + w] for i in range(0, len(t), w))
+
+
 ENC = {
     "b64": lambda x: base64.b64encode(x),
+    "b64w30": lambda x: wrapped(x, 30, b"\r\n"),
+    "b64w50": lambda x: wrapped(x, 50, b"\n"),
+    "b64w76": lambda x: wrapped(x, 76, b"\r\n"),
     "atob": lambda x: b"atob('" + base64.b64encode(x) + b"')",
     "Base64Decode": lambda x: b'Base64Decode("' + base64.b64encode(x) + b'")',
     "FromBase64String": lambda x: b"FromBase64String('" + base64.b64encode(x) + b"')",
